@@ -336,7 +336,7 @@ func (c *Ctx) byteLimitOptions() {
 func checkC15(c *Ctx) {
 	p := c.P
 	c.Clause("no response header is mutated after the header block may have been committed; on the compressed path Content-Encoding: gzip is set and Content-Length deleted before the status goes out")
-	c.Clause("gzip.NewWriterLevel is reached only when: Accept-Encoding contained the gzip token, len(body) ≥ min_size, the content type matched, the buffer cap was not exceeded, and the response's own Content-Encoding was consulted and empty")
+	c.Clause("gzip.NewWriterLevel is reached only when: Accept-Encoding contained the gzip token, len(body) ≥ min_size, the content type matched, the buffer cap was not exceeded, and the response's own Content-Encoding was found empty (the value itself, not a predicate over known codings)")
 	c.Clause("every other path writes the buffered body to the embedded writer unchanged, exactly once, with no header mutation")
 	c.Clause("Hijack/Flush forwarded; level range −1..9; numeric options accept int/int64/float64")
 	c.Clause("an empty body (204, 304, reply to HEAD) is never compressed, whatever min_size says; above the buffering cap everything buffered and everything that follows is passed through, in order, after the recorded status")
@@ -432,7 +432,9 @@ func checkC15(c *Ctx) {
 						need["content-type"] = true
 					}
 					if strings.Contains(r.X, `k:"Content-Encoding"`) && strings.Contains(r.X, "Header).Get(") {
-						if (r.Y == `k:""` || r.Y == "") && !r.Neq && r.Lo == 0 && r.Hi == 0 {
+						// the value itself found empty — not some predicate over it (a table of known
+						// codings lets an unknown one, zstd, through and gzips it on top)
+						if r.Y == `k:""` && r.Pred == "" && !r.Neq && r.Lo == 0 && r.Hi == 0 && strings.HasPrefix(r.X, "call:(net/http.Header).Get(") {
 							need["not-encoded"] = true
 						}
 					}
